@@ -6,11 +6,27 @@ import json, os, subprocess, sys, time
 ROOT = os.path.dirname(os.path.dirname(os.path.abspath(__file__)))
 D = os.path.join(ROOT, "selftest", "refactorings")
 
-def sh(cmd, cwd=None):
-    r = subprocess.run(cmd, shell=True, cwd=cwd, capture_output=True, text=True)
+def sh(cmd, cwd=None, env=None):
+    e = dict(os.environ)
+    if env: e.update(env)
+    r = subprocess.run(cmd, shell=True, cwd=cwd, env=e, capture_output=True, text=True)
     return r.returncode, r.stdout + r.stderr
 
+WT = os.environ.get("SEED_WT", "/tmp/refactor_wt")  # scratch worktree of /repo HEAD (VERIF_REPO): /repo itself is never touched
+
+
 def main():
+    made = not os.path.exists(WT)
+    if made:
+        sh("git -C /repo worktree add %s HEAD" % WT)
+    try:
+        _main()
+    finally:
+        if made:
+            sh("git -C /repo worktree remove --force %s" % WT)
+
+
+def _main():
     want = sys.argv[1:]
     head = sh("git -C /repo rev-parse --short HEAD")[1].strip()
     results = {}
@@ -20,22 +36,22 @@ def main():
         name = f[:-5]
         txt = open(os.path.join(D, name + ".txt")).read()
         props = txt.split("\n")[0].replace("checks:", "").split()
-        c, o = sh("git -C /repo apply --check %s" % os.path.join(D, f))
+        c, o = sh("git -C %s apply --check %s" % (WT, os.path.join(D, f)))
         if c != 0:
             results[name] = {"applies": False, "note": o.strip()[-200:]}
             print(name, "DOES-NOT-APPLY"); continue
         rec = {"applies": True, "repo_head": head, "checks": {}, "what": txt.split("\n", 1)[1].strip()}
         try:
-            sh("git -C /repo apply %s" % os.path.join(D, f))
-            ci, oi = sh("/venv/bin/python -c 'import commonroad.scenario.scenario, commonroad.common.solution, commonroad.visualization.mp_renderer'", "/repo")
+            sh("git -C %s apply %s" % (WT, os.path.join(D, f)))
+            ci, oi = sh("/venv/bin/python -c 'import commonroad.scenario.scenario, commonroad.common.solution, commonroad.visualization.mp_renderer'", WT, {"PYTHONPATH": WT})
             rec["imports"] = ci == 0
             for p in props:
                 t0 = time.time()
-                cc, oc = sh("./check %s" % p, ROOT)
+                cc, oc = sh("./check %s" % p, ROOT, {"VERIF_REPO": WT, "VERIF_OUT": os.path.join(WT, ".verif_out"), "VERIF_JOBS": os.environ.get("VERIF_JOBS", "4")})
                 rec["checks"][p] = {"exit": cc, "secs": round(time.time() - t0, 1),
                                     "lines": [l for l in oc.split("\n") if l.startswith(("VIOLATION", "UNDECIDED", "CHECKER"))][:4]}
         finally:
-            sh("git -C /repo checkout -- .")
+            sh("git -C %s checkout -- ." % WT)
         results[name] = rec
         print(name, {p: r["exit"] for p, r in rec["checks"].items()}, "imports" if rec["imports"] else "IMPORT-FAILS", flush=True)
     json.dump(results, open(os.path.join(D, "RESULTS.json"), "w"), indent=1)
